@@ -174,6 +174,44 @@ def run(ctx: Ctx):
     _search(ctx, model, base, msg)
     no_hidden_state(ctx, "C02-R7", [msg.methods["from_bytes"], base.funcs["_traverse_avp_tree"],
                                     hdr.methods["from_bytes"]], {"all_commands"})
+    _typed_sequence(ctx, model, base)
+
+
+def _typed_sequence(ctx: Ctx, model, base):
+    """A message decoded into its typed class exposes the AVP sequence that was on the wire."""
+    from ..tables import command_classes
+    ctx.rule("C02-R8", "a typed (DefinedMessage) decode keeps the received AVP list: `avps` / "
+                       "`find_avps` / `as_bytes` of a decoded message do not rebuild it from the "
+                       "attributes", floor=1)
+    dm = base.classes.get("DefinedMessage")
+    cons = "DefinedMessage.avps:regenerated-from-attributes"
+    ctx.inst(cons)
+    if dm is None:
+        ctx.error("DefinedMessage not found", rule="C02-R8")
+        return
+    getter = dm.methods.get("avps")
+    regenerates = getter is not None and any(
+        isinstance(c, ast.Call) and A.call_name(c).endswith("generate_avps_from_defs")
+        for c in ast.walk(getter.node))
+    cleared = []
+    for c in command_classes(model):
+        pi = c.methods.get("__post_init__")
+        if pi is None:
+            continue
+        for n in ast.walk(pi.node):
+            if isinstance(n, ast.Assign) and any(A.dotted(t) == "self._avps" for t in n.targets) \
+                    and isinstance(n.value, ast.List) and not n.value.elts:
+                cleared.append(c.name)
+                break
+    if regenerates and cleared:
+        ctx.fail(cons, dm.loc(getter.node), f"every typed constructor ({len(cleared)} classes, e.g. "
+                 f"{cleared[0]}) empties the received AVP list after copying values into attributes, and "
+                 f"DefinedMessage.avps then rebuilds the list from the attributes in avp_def order: for a "
+                 f"message decoded into its typed class the AVP sequence differs from the wire - a "
+                 f"repeated single-valued AVP survives once, AVPs come out in definition order with "
+                 f"the definitions' M flags, members of grouped AVPs a container does not declare "
+                 f"(and has no additional_avps for) are dropped, and find_avps() searches that rebuilt "
+                 f"list")
 
 
 def _registry(ctx: Ctx, model, base, msg):
